@@ -67,6 +67,11 @@ def _casevar(w, i):
     return [w.lower(), w.upper(), w.capitalize(), w.lower()[:1] + w.upper()[1:]][i % 4]
 
 
+# datalines4 bodies with `;` directly before multi-byte characters (terminator look-ahead on byte ranges), and `*`
+# statements inside macro definitions that run over a line break before a macro call (comment prediction goes back)
+OPEN_FRAGS += ["datalines4;\n", "cards4;\n", "lines4;\n", ";abé", ";;;é", ";a日", ";ив;", ";;é;;", "\n;;;;\n", ";;;;", "é;;;;", ";\n;;;日;"]
+MACRO_FRAGS += ["* a\n b %x;", "*x\n%y;", "* c\n\n d %m(1);", "%macro m; * a\n b %x; %mend;", "%macro q;\n*é\n%let z=1;", "* a b;\n", "%macro m;", "%mend;"]
+
 # markers expanded by `soup` into a random table keyword (keeps the weight of the hand-picked fragments)
 KW_OPEN, KW_MACRO = "\ue000", "\ue001"
 if _KWS:
